@@ -26,6 +26,14 @@ const (
 	pkgMain      = modulePath + "/cmd/taskctl"
 )
 
+// maxWitnesses: how many witnesses of one signature are replayed before giving up.
+func (s *PropSpec) maxWitnesses() int {
+	if s.AttributeByReplay {
+		return 2 // the scheduler replay is itself a search over graphs and completion orders
+	}
+	return 6
+}
+
 var specs = map[string]*PropSpec{}
 
 func register(s *PropSpec) { specs[s.ID] = s }
@@ -208,17 +216,19 @@ func init() {
 		for n := int64(0); n <= maxn; n++ {
 			js = append(js, &Job{Pkg: pkgMain, Func: "VerifC10Args", Args: []int64{n}, Timeout: 30 * time.Minute})
 		}
+		js = append(js, &Job{Pkg: pkgConfig, Func: "VerifC10ConfigVars", Timeout: 5 * time.Minute})
 		return js
 	}
 	register(&PropSpec{ID: "C10", Jobs: c10jobs,
-		Covers: []string{"C10.rendered", "C10.undefined", "C10.two-levels", "C10.args-checked", "C10.two-args"},
+		Covers: []string{"C10.rendered", "C10.undefined", "C10.two-levels", "C10.args-checked", "C10.two-args", "C10.configuration-level-checked"},
 		Bounds: map[string]interface{}{
 			"quick":    "one template variable defined at every subset of {configuration (as present in cfg.Variables after loading), --set, task, stage}, values independent symbolic members of {a, m, z}, target run directly and as a pipeline stage; argument vectors `t1` + 0..4 symbolic words over {--, t1, -x, a=b, w}",
 			"thorough": "argument vectors up to 5 words",
 		},
-		Outside:     []string{"how configuration-level `variables:` travel from the file into cfg.Variables (Config.merge -> mergo, reflection: not encodable; a defect there - they are dropped - is known from reading and NOT detectable by this check)", "real text/template semantics (stub: single-reference template resolves to the value if the key is present, error otherwise - the missingkey=error contract)", "Root (set inside Loader.Load, stubbed)", "urfave/cli flag parsing"},
+		Outside:     []string{"mergo itself (reflection, not encodable): Config.merge's call to mergo.Merge is replaced by a model of mergo's documented default behaviour on *Config (destination fields are filled only when empty, maps receive missing keys); the native replay runs the real mergo", "real text/template semantics (stub: single-reference template resolves to the value if the key is present, error otherwise - the missingkey=error contract)", "Root (set inside Loader.Load, stubbed)", "urfave/cli flag parsing"},
 		Assumptions: []string{"stubs: Loader.Load returns the harness configuration; cli.Context accessors; utils.RenderString model; shell parser/interpreter; os.Environ/Getwd", "executed for real: the app's Before hook (--set loop), rootAction, buildTaskRunner, taskArgs, runTarget/runTask/runPipeline, NewTaskRunner, TaskRunner.Run, TaskCompiler, Scheduler.Schedule/runStage, DefaultExecutor.Execute"},
-		Replay:      map[string]*ReplaySpec{"*": {PkgDir: "cmd/taskctl", File: "C10_replay_test.go", Test: "TestVerifReplayC10"}}})
+		Replay: map[string]*ReplaySpec{"*": {PkgDir: "cmd/taskctl", File: "C10_replay_test.go", Test: "TestVerifReplayC10"},
+			"VerifC10ConfigVars": {PkgDir: "internal/config", File: "C10_configvars_replay_test.go", Test: "TestVerifReplayC10ConfigVars"}}})
 
 	schedJobs := func(tier string) []*Job {
 		var js []*Job
@@ -263,7 +273,8 @@ func init() {
 	schedOutside := []string{"more than 3 stages (a 4-stage graph did not finish within 20 minutes per graph in interference mode, nor in thread mode: not registered)", "nesting deeper than one level (the nested Schedule call is the same function; the worker harness checks that its result is propagated)", "cancellation is covered with a stub runner on 5 of the 25 graphs (the real TaskRunner side of cancellation is C12)", "wall-clock overlap: the 50 ms pause is the cut point / a deschedule", "the composition step obligations => property is a hand argument (DESIGN C01-C04); the thread-mode runs are its end-to-end cross-check"}
 	schedAssume := []string{"rely relation iStep/iMayStop for workers (validated against the real goroutine body by VerifSchedWorker)", "checkStageCondition stubbed: a stage's condition has a fixed truth value", "runner.Runner stubbed; tasks terminate", "sync/atomic, WaitGroup, go statements: engine intrinsics; sequential consistency at atomic operations", "map iteration order = insertion (declaration) order; all orders covered by enumerating edge sets over ordered pairs"}
 	schedReplay := map[string]*ReplaySpec{"*": {PkgDir: "pkg/scheduler", File: "C01_replay_test.go", Test: "TestVerifReplaySched"},
-		"VerifSchedNested": {PkgDir: "pkg/scheduler", File: "C01_replay_test.go", Test: "TestVerifReplaySchedNested"}}
+		"VerifSchedNested": {PkgDir: "pkg/scheduler", File: "C01_replay_test.go", Test: "TestVerifReplaySchedNested"},
+		"VerifSchedWorker": {PkgDir: "pkg/scheduler", File: "C01_replay_test.go", Test: "TestVerifReplaySchedWorker"}}
 	for _, id := range []string{"C01", "C02", "C03", "C04"} {
 		covers := []string{"C03.cancelled-run-returns", "C03.condition-error-cancels-the-run", "C01.nested-run-returns", "C01.acyclic-graph", "C01.launch", "C03.pass-reaches-the-pause", "C03.schedule-returns", "C01.worker-checked", "C03.whole-run-returns", "C04.all-eligible-started-in-one-pass"}
 		register(&PropSpec{ID: id, Jobs: schedJobs, Harness: []string{"C01"}, AttributeByReplay: true, Covers: covers, Bounds: schedBounds, Outside: schedOutside, Assumptions: schedAssume, Replay: schedReplay})
@@ -315,18 +326,27 @@ func init() {
 		js = append(js, &Job{Pkg: pkgRunner, Func: "VerifC14Up", Args: []int64{pb}, Timeout: 30 * time.Minute, MaxSteps: 2000000000})
 		js = append(js, &Job{Pkg: pkgMain, Func: "VerifC14CLI", Args: []int64{0}, Timeout: 5 * time.Minute})
 		js = append(js, &Job{Pkg: pkgMain, Func: "VerifC14CLI", Args: []int64{1}, Timeout: 5 * time.Minute})
+		for mode := int64(0); mode < 3; mode++ {
+			for second := int64(0); second < 2; second++ {
+				if mode == 2 && second == 1 {
+					continue
+				}
+				js = append(js, &Job{Pkg: pkgMain, Func: "VerifC14CLIMulti", Args: []int64{mode, second}, Timeout: 10 * time.Minute})
+			}
+		}
 		return js
 	}
 	register(&PropSpec{ID: "C14", Jobs: c14jobs,
-		Covers: []string{"C14.hooks-checked", "C14.up-failed", "C14.two-tasks-share-a-context", "C14.concurrent-up-checked", "C14.concurrent-up-failed", "C14.cli-checked"},
+		Covers: []string{"C14.hooks-checked", "C14.up-failed", "C14.two-tasks-share-a-context", "C14.concurrent-up-checked", "C14.concurrent-up-failed", "C14.cli-checked", "C14.cli-multi-checked", "C14.cli-two-targets-ran"},
 		Bounds: map[string]interface{}{
-			"quick":    "1..2 sequential task runs sharing one context (up, down, before, after commands; a second, unused context), tasks with/without condition, before hook, after hook (8 shapes), symbolic outcome (success / any exit status) for every context and task command, symbolic allow_failure; two simultaneous runs on a fresh context in thread mode (preemption bound 3), up succeeding/failing; CLI: runTask / runPipeline with the target succeeding/failing",
+			"quick":    "1..2 sequential task runs sharing one context (up, down, before, after commands; a second, unused context), tasks with/without condition, before hook, after hook (8 shapes), symbolic outcome (success / any exit status) for every context and task command, symbolic allow_failure; two simultaneous runs on a fresh context in thread mode (preemption bound 3), up succeeding/failing; CLI: runTask / runPipeline with the target succeeding/failing; two CLI targets (task+task, task+pipeline) sharing a context through the root action, `run` and `run task`, real TaskRunner, symbolic outcomes",
 			"thorough": "3 sequential runs; preemption bound 5",
 		},
-		Outside:     []string{"more than 3 tasks / more than one used context", "sync.Once's own implementation (engine intrinsic)", "several CLI targets sharing a context (Finish after each target)", "contexts used through the scheduler (same TaskRunner.Run)"},
+		Outside:     []string{"more than 3 tasks / more than one used context", "sync.Once's own implementation (engine intrinsic)", "contexts used through the scheduler (same TaskRunner.Run)"},
 		Assumptions: []string{"stub: (*DefaultExecutor).Execute records the command and returns a symbolic outcome", "CLI harness: TaskRunner.Run/Finish and Scheduler.Schedule replaced by recording stand-ins"},
 		Replay: map[string]*ReplaySpec{
-			"VerifC14CLI": {PkgDir: "cmd/taskctl", File: "C14_cli_replay_test.go", Test: "TestVerifReplayC14CLI"},
+			"VerifC14CLI":      {PkgDir: "cmd/taskctl", File: "C14_cli_replay_test.go", Test: "TestVerifReplayC14CLI"},
+			"VerifC14CLIMulti": {PkgDir: "cmd/taskctl", File: "C14_cli_replay_test.go", Test: "TestVerifReplayC14CLIMulti"},
 			"*":           {PkgDir: "pkg/runner", File: "C14_replay_test.go", Test: "TestVerifReplayC14"}}})
 
 	c08jobs := func(tier string) []*Job {
